@@ -13,7 +13,7 @@ EXPLANATION = (
     "take_last_error_address, pop the handler context) and the error edge pushes that context; "
     "(R4) GOSUB/RETURN stack ownership; (R5) register frames vs. user jumps; (R6) the error arm "
     "of the fetch-execute loop restores the structures a failing statement had opened; (R7) no arm of "
-    "interpret_one stores its jump target before its last failure point.")
+    "interpret_one stores its jump target before its last failure point; (R8) label tables; (R9) in the generator's statement dispatcher no Statement variant emits an instruction on a path that has not recorded the statement's address, so every statement kind that can fail is a resume point.")
 NOT_DECIDED = [
     "that control arrives exactly where written for every program layout (value-level addresses)",
     "RESUME re-executes the *same* statement (depends on the statement-address search, run time)",
@@ -470,6 +470,89 @@ def r7_transfer_committed_last(ctx, rule="C05.R7"):
     ctx.require(rule, 6)
 
 
+def r9_every_emitting_statement_is_marked(ctx, rule="C05.R9"):
+    """`every statement kind as the failing statement`: RESUME / RESUME NEXT find the failing
+    statement and its successor in the table of statement addresses.  A statement whose lowering
+    emits instructions but whose address is not recorded belongs, for the VM, to the statement
+    before it: RESUME re-executes that one as well, RESUME NEXT skips the one after.  In the
+    statement dispatcher of the generator, for every variant of Statement: on the paths that variant
+    takes, no instruction is emitted before mark_statement_address() was called.  (A variant that
+    emits nothing - a comment, CONST - needs no mark.)"""
+    prog = ctx.prog
+    disp = None
+    for g in emit.generator_fns(prog):
+        sws = [s for s in mir.enum_switches(prog, g.body) if s.adt.endswith("::Statement")]
+        if sws:
+            sw = max(sws, key=lambda s: len(s.arms))
+            if disp is None or len(sw.arms) > len(disp[1].arms):
+                disp = (g, sw, sws)
+    if disp is None or len(disp[1].arms) < 10:
+        raise CheckError("%s: statement dispatcher of the generator not found" % rule)
+    g, main_sw, sws = disp
+    body = g.body
+    evs = emit.events(prog, g)
+    if not any(e.kind == "mark" for e in evs.values()):
+        # the mark may sit in the caller (the statement loop): then it is unconditional
+        raise CheckError("%s: the statement dispatcher %s never calls mark_statement_address" % (rule, g.name))
+    # switches on the same statement value (the dispatch itself and tests such as
+    # `if let Statement::Comment(_) = &statement` / `matches!(statement, ..)`)
+    pv = mir.Prov(body)
+
+    def root(place):
+        o = mir.strip_refs(pv.of_place(place))
+        return str(o)
+    same = {s.bb: s for s in sws if s.place[0] == main_sw.place[0] or root(s.place) == root(main_sw.place)}
+    n = 0
+    for v in prog.variants(main_sw.adt):
+        # path-sensitive in the flags that `matches!` / `if let .. else` set before testing them
+        seen, st, bad = set(), [(0, frozenset())], None
+        while st and bad is None:
+            b, env = st.pop()
+            if (b, env) in seen or body.is_cleanup(b):
+                continue
+            seen.add((b, env))
+            e = evs.get(b)
+            if e is not None:
+                if e.kind == "mark":
+                    continue
+                bad = e
+                break
+            flags = dict(env)
+            for stt in body.blocks[b]["s"]:
+                if stt["k"] == "assign" and not stt["p"][1]:
+                    k = stt["r"].get("o", {}).get("k") if stt["r"]["k"] == "use" else None
+                    if k is not None and k.get("ty") == "bool" and "int" in k:
+                        flags[stt["p"][0]] = k["int"]
+                    else:
+                        flags.pop(stt["p"][0], None)
+            t = body.term(b)
+            if t["k"] == "call" and not t["d"][1]:
+                flags.pop(t["d"][0], None)
+            env2 = frozenset(flags.items())
+            if b in same:
+                sw_ = same[b]
+                tgt = sw_.arms.get(v, sw_.otherwise)
+                if tgt is not None:
+                    st.append((tgt, env2))
+                continue
+            p_ = mir.op_place(t["o"]) if t["k"] == "switch" else None
+            if p_ is not None and not p_[1] and p_[0] in flags and t.get("ty") == "bool":
+                val = flags[p_[0]]
+                tg = [x for vv, x in t["ts"] if vv == val]
+                st.append((tg[0] if tg else t["else"], env2))
+                continue
+            st.extend((x, env2) for x in body.succ(b))
+        n += 1
+        ctx.decide(bad is None, rule, "%s:%s" % (rule, v), g.loc,
+                   "no instruction is emitted for this statement before its address is recorded",
+                   "the lowering of Statement::%s emits %s (line %s) on a path that has not called "
+                   "mark_statement_address(): the statement is no resume point, so after an error in it RESUME "
+                   "re-executes the statement before it as well, and RESUME NEXT after an error in the "
+                   "statement before it skips this one" % (v, bad.show() if bad else "", bad.line if bad else ""))
+    ctx.analysed_units(rule, statement_kinds=n, dispatcher=g.path)
+    ctx.require(rule, 20)
+
+
 def run(ctx):
     common.install(ctx)
     r1_error_codes(ctx)
@@ -481,3 +564,4 @@ def run(ctx):
     r7_transfer_committed_last(ctx)
     from . import labels
     labels.r_label_tables(ctx, "C05.R8")
+    r9_every_emitting_statement_is_marked(ctx)
